@@ -39,7 +39,7 @@ static size_t build(uint8_t* buf) {
   if (fam == 1) {
     // skeleton(param3) with a filler of param4 bytes (kind param5: 0 spaces, 1 plain string content) and param6 symbolic tail bytes
     long sk = verif_param(3); size_t fill = verif_param(4); long kind = verif_param(5); size_t tail = verif_param(6);
-    const char* pre = sk == 0 ? "" : sk == 1 ? "[" : sk == 2 ? "{\"a\":" : sk == 3 ? "[\"" : "{\"b\":\"";
+    const char* pre = sk == 0 ? "" : sk == 1 ? "[" : sk == 2 ? "{\"a\":" : sk == 3 ? "[\"" : sk == 4 ? "{\"b\":\"" : "{\"a\"   :";   // 5: whitespace run, token, then the filler run
     o = put(buf, o, pre);
     if (kind == 0) { for (size_t i = 0; i < fill; i++) buf[o++] = ' '; }
     else if (kind == 1) { if (sk < 3) buf[o++] = '"'; for (size_t i = 0; i < fill; i++) buf[o++] = "ab[{]},:"[i & 7]; }
@@ -60,11 +60,14 @@ static size_t build(uint8_t* buf) {
     long arr = verif_param(3); long esc = verif_param(4); long one = verif_param(5);   // param5 = 1: one-byte values
     uint8_t v[6]; verif_symbolic(v, 6, "vals");
     if (one) { verif_assume(v[1] == ' ' && v[3] == ' ' && v[5] == ' '); }
+    size_t padlen = verif_param(6);   // extra trailing member with a long plain string (keys are then followed by >= 32 bytes of text)
     if (arr) { buf[o++] = '['; buf[o++] = v[0]; buf[o++] = v[1]; buf[o++] = ','; buf[o++] = v[2]; buf[o++] = v[3]; buf[o++] = ','; buf[o++] = v[4]; buf[o++] = v[5]; buf[o++] = ']'; }
     else {
       o = put(buf, o, esc ? "{\"\\u0061\":" : "{\"a\":"); buf[o++] = v[0]; buf[o++] = v[1];
       o = put(buf, o, ",\"b\":"); buf[o++] = v[2]; buf[o++] = v[3];
-      o = put(buf, o, ",\"a\":"); buf[o++] = v[4]; buf[o++] = v[5]; buf[o++] = '}';
+      o = put(buf, o, ",\"a\":"); buf[o++] = v[4]; buf[o++] = v[5];
+      if (padlen) { o = put(buf, o, ",\"zz\":\""); for (size_t i = 0; i < padlen; i++) buf[o++] = 'p'; buf[o++] = '"'; }
+      buf[o++] = '}';
     }
     return o;
   }
